@@ -51,6 +51,10 @@ pub struct Case {
     /// known finding "bytes after a 1xx head in the same delivery" is then not in play
     #[serde(default)]
     pub cut_after_interims: bool,
+    /// further end-to-end header fields in the origin's final response (the forwarder takes up to
+    /// 128 fields in a response head)
+    #[serde(default)]
+    pub many_headers: u8,
 }
 
 fn body_bytes(n: usize) -> Vec<u8> {
@@ -77,6 +81,9 @@ impl Case {
             _ => "Status",
         };
         s.extend_from_slice(format!("HTTP/1.1 {} {}\r\nX-Resp: value-1\r\nContent-Type: application/x-test\r\n", self.status, reason).as_bytes());
+        for i in 0..self.many_headers {
+            s.extend_from_slice(format!("X-Many-{}: {}\r\n", i, i).as_bytes());
+        }
         if self.hop_by_hop {
             s.extend_from_slice(b"Connection: keep-alive, X-Hop\r\nX-Hop: secret-hop\r\nKeep-Alive: timeout=5\r\nProxy-Connection: keep-alive\r\n");
         }
@@ -472,7 +479,7 @@ fn judge(c: &Case, s: &Seen) -> Verdict {
         what,
         s.connects
     );
-    let mut hs = [httparse::EMPTY_HEADER; 64];
+    let mut hs = [httparse::EMPTY_HEADER; 256];
     let mut r = httparse::Request::new(&mut hs);
     let Ok(httparse::Status::Complete(hlen)) = r.parse(&s.origin_request) else {
         return viol("forward:request-malformed", format!("{}: origin received {:?}", what, String::from_utf8_lossy(&s.origin_request[..s.origin_request.len().min(300)])));
@@ -563,6 +570,8 @@ fn judge_response(c: &Case, s: &Seen, what: &str) -> Verdict {
         what,
         s.headers
     );
+    let many = s.headers.iter().filter(|(n, _)| n.to_ascii_lowercase().starts_with("x-many-")).count();
+    ensure!(many == c.many_headers as usize, "forward:response-header-lost", "{}: {} of the origin's {} X-Many-* fields reached the client", what, many, c.many_headers);
     if c.hop_by_hop {
         ensure!(
             ch("keep-alive").is_empty() && ch("proxy-connection").is_empty() && ch("x-hop").is_empty(),
@@ -603,7 +612,7 @@ impl Suite for ForwardSuite {
         "forwarded-exchange"
     }
     fn rule(&self) -> String {
-        "absolute-URI GET / HEAD / POST / PUT requests (0-3 end-to-end headers, body absent / with Content-Length / unsized: chunked on HTTP/1.1, DATA frames without content-length on HTTP/2) from HTTP/1.1 and HTTP/2 clients through the real tunnel in memory to a scripted origin; origin responses from a grammar: 0-2 interim 1xx heads (in half of the cases every interim head ends its delivery, with further cuts possibly inside it: the known finding about bytes following a 1xx head is then not in play and every failure is reported), status 200 / 404 / 500 / 204 / 304, framing Content-Length / chunked (chunk sizes 1-5000, optional extensions) / close-delimited, bodies of 0-12000 position-coded bytes, optional hop-by-hop and Connection-nominated headers; the origin stream is delivered in 1-8 generated pieces; HTTP/2 clients optionally with a 1000-byte window and slow release; oracle = reference HTTP/1.1 parser and de-chunker: the origin gets one well-formed request (method, path, one Host, headers minus proxy-*, body framed consistently), the client gets status, end-to-end headers, exactly the reference body (de-chunked for HTTP/2, verbatim for HTTP/1.1) and the end of the stream; interim responses reach HTTP/1.1 clients; non-trivial = chunked body with a chunk spanning two deliveries, or a slow client".into()
+        "absolute-URI GET / HEAD / POST / PUT requests (0-3 end-to-end headers, body absent / with Content-Length / unsized: chunked on HTTP/1.1, DATA frames without content-length on HTTP/2) from HTTP/1.1 and HTTP/2 clients through the real tunnel in memory to a scripted origin; origin responses from a grammar: 0-2 interim 1xx heads (in half of the cases every interim head ends its delivery, with further cuts possibly inside it: the known finding about bytes following a 1xx head is then not in play and every failure is reported), status 200 / 404 / 500 / 204 / 304, framing Content-Length / chunked (chunk sizes 1-5000, optional extensions) / close-delimited, bodies of 0-12000 position-coded bytes, optional hop-by-hop and Connection-nominated headers, 0-118 further header fields (the forwarder takes up to 128); the origin stream is delivered in 1-8 generated pieces; HTTP/2 clients optionally with a 1000-byte window and slow release; oracle = reference HTTP/1.1 parser and de-chunker: the origin gets one well-formed request (method, path, one Host, headers minus proxy-*, body framed consistently), the client gets status, end-to-end headers, exactly the reference body (de-chunked for HTTP/2, verbatim for HTTP/1.1) and the end of the stream; interim responses reach HTTP/1.1 clients; non-trivial = chunked body with a chunk spanning two deliveries, or a slow client".into()
     }
     fn strategy(&self, _: Tier) -> BoxedStrategy<Case> {
         (
@@ -625,9 +634,9 @@ impl Suite for ForwardSuite {
                 2 => Just(RespFraming::CloseDelimited),
             ],
             prop_oneof![1 => Just(0u16), 4 => 1u16..300, 3 => 300u16..12_000],
-            (any::<bool>(), prop::collection::vec(any::<u16>(), 0..8), any::<bool>(), any::<bool>()),
+            (any::<bool>(), prop::collection::vec(any::<u16>(), 0..8), any::<bool>(), any::<bool>(), prop_oneof![4 => Just(0u8), 2 => 1u8..60, 2 => 56u8..=118]),
         )
-            .prop_map(|(h2, method, path, req_headers, body_kind, body, interim, status, framing, body_len, (hop_by_hop, cuts, slow_client, cut_after_interims))| {
+            .prop_map(|(h2, method, path, req_headers, body_kind, body, interim, status, framing, body_len, (hop_by_hop, cuts, slow_client, cut_after_interims, many_headers))| {
                 // any method may carry a body (a GET with a JSON body is common with search APIs);
                 // HEAD stays bodiless, and two GETs in three
                 let req_body = if method == "HEAD" || (method == "GET" && body.len() % 3 != 0) {
@@ -654,6 +663,7 @@ impl Suite for ForwardSuite {
                     slow_client: slow_client && h2,
                     h3: false,
                     cut_after_interims,
+                    many_headers,
                 }
             })
             .boxed()
